@@ -188,7 +188,7 @@ def requeue_before_exit(r: Report, rid: str, fn: FuncInfo, queue_text: str, extr
     """Every normal return (and the listed raises) passes the loop that puts skipped frames back into the queue."""
     g = CFG(fn.node)
     req = {n.id for n in g.nodes.values() if n.kind == "loop" and isinstance(n.ast, (ast.For, ast.AsyncFor))
-           and any(queue_text in ast.unparse(s) and ".put(" in ast.unparse(s) for s in n.ast.body)}
+           and any(queue_text in ast.unparse(s) and (".put(" in ast.unparse(s) or ".put_nowait(" in ast.unparse(s)) for s in n.ast.body)}
     if not req:
         r.violation(rid, f"{fn.qualname}#requeue", f"skipped frames are never put back into {queue_text}: they are lost for later reads", fn.loc)
         return
@@ -225,10 +225,14 @@ def requeue_before_exit(r: Report, rid: str, fn: FuncInfo, queue_text: str, extr
     r.check(ok, rid, f"{fn.qualname}#requeue", "an exit is reachable after skipping frames without re-queueing them: "
             + " -> ".join(repr(g.nodes[p]) for p in witness[-4:]), loc=fn.loc)
     # every skip (`continue` of the receive loop) must first remember the frame in the list that is re-queued; the loop is only left by return/raise
-    loops = [n for n in walk_no_nested(fn.node) if isinstance(n, ast.While)]
+    loops = [n for n in fn.node.body if isinstance(n, ast.While)]       # the receive loop is the top-level one (a nested drain loop may exist)
     if len(loops) != 1:
         raise AnalysisError(f"{fn.qualname}: expected exactly one receive loop")
-    lists = {ast.unparse(l.ast.iter) for l in g.nodes.values() if l.id in req}
+    lists = set()
+    for l in g.nodes.values():
+        if l.id in req:
+            it = l.ast.iter
+            lists |= {ast.unparse(it)} | ({ast.unparse(it.left), ast.unparse(it.right)} if isinstance(it, ast.BinOp) and isinstance(it.op, ast.Add) else set())
     for c in [n for n in ast.walk(loops[0]) if isinstance(n, ast.Continue)]:
         blk = None
         for cand in ast.walk(loops[0]):
@@ -238,7 +242,8 @@ def requeue_before_exit(r: Report, rid: str, fn: FuncInfo, queue_text: str, extr
                                              and s_.value.func.attr == "append" and ast.unparse(s_.value.func.value) in lists for s_ in blk.body)
         r.check(remembered, rid, f"{fn.qualname}#skip-remembers@{ast.unparse(blk.test)[:50] if blk is not None else c.lineno}",
                 "a frame is skipped without being stored for re-queueing: it is lost for later reads", loc=f"{fn.module.relpath}:{c.lineno}")
-    brk = [n for n in ast.walk(loops[0]) if isinstance(n, ast.Break)]
+    inner_loops = [x for x in ast.walk(loops[0]) if isinstance(x, (ast.While, ast.For)) and x is not loops[0]]
+    brk = [n for n in ast.walk(loops[0]) if isinstance(n, ast.Break) and not any(n is y for il in inner_loops for y in ast.walk(il))]
     r.check(not brk, rid, f"{fn.qualname}#no-break", "the receive loop must only be left by return or raise (a break returns as if the awaited frame had arrived)", loc=fn.loc)
 
 
@@ -452,3 +457,27 @@ def hsfz_ack_timeout_units(m: Model, r: Report, rid: str) -> None:
             f"the URI that `discover hsfz` emits for a gateway probed with an acknowledgement wait is read back as a different wait: {bad_units}; "
             "with a silent gateway the write then blocks far beyond the documented bound", loc=htc.loc)
 
+
+
+def requeue_order(r: Report, rid: str, fn: FuncInfo, reader: FuncInfo, queue_attr: str, skips_deliverable: bool) -> None:
+    """A consumer that sets frames aside and later puts them back with put()/put_nowait() appends them *behind* everything the reader
+    task queued in the meantime.  If the frames it can set aside are of the kind a user read delivers, the user sees them out of order
+    whenever a later frame was already queued (e.g. [data A, ack, data B] arriving in one TCP segment is read as B, A)."""
+    tail_puts = [n for n in ast.walk(fn.node) if isinstance(n, ast.Call) and isinstance(n.func, ast.Attribute) and n.func.attr in ("put", "put_nowait")
+                 and ast.unparse(n.func.value) == f"self.{queue_attr}" and any(isinstance(a_, ast.For) and any(n is x for x in ast.walk(a_)) for a_ in ast.walk(fn.node))]
+    producer = any(isinstance(n, ast.Call) and isinstance(n.func, ast.Attribute) and n.func.attr in ("put", "put_nowait") and ast.unparse(n.func.value) == f"self.{queue_attr}"
+                   for n in ast.walk(reader.node))
+    # order-preserving idiom: drain what is queued into a list (get_nowait until empty), then refill with set-aside + drained, all without an
+    # await in between (put_nowait), so the reader task cannot interleave
+    ordered = False
+    drains = [w for w in ast.walk(fn.node) if isinstance(w, ast.While) and ast.unparse(w.test).replace(" ", "") == f"notself.{queue_attr}.empty()"
+              and any(isinstance(x, ast.Call) and ast.unparse(x.func) == f"self.{queue_attr}.get_nowait" for x in ast.walk(w))]
+    if len(drains) == 1:
+        drained = {x.func.value.id for x in ast.walk(drains[0]) if isinstance(x, ast.Call) and isinstance(x.func, ast.Attribute) and x.func.attr == "append" and isinstance(x.func.value, ast.Name)}
+        refills = [f_ for f_ in ast.walk(fn.node) if isinstance(f_, ast.For) and f_.lineno > drains[0].lineno and isinstance(f_.iter, ast.BinOp) and isinstance(f_.iter.op, ast.Add)
+                   and isinstance(f_.iter.right, ast.Name) and f_.iter.right.id in drained and isinstance(f_.iter.left, ast.Name) and f_.iter.left.id not in drained]
+        ordered = len(refills) == 1 and all(any(n is x for x in ast.walk(refills[0])) and n.func.attr == "put_nowait" for n in tail_puts) \
+            and not any(isinstance(x, ast.Await) for st in (drains[0], refills[0]) for x in ast.walk(st))
+    r.check(not (tail_puts and producer and skips_deliverable) or ordered, rid, f"{fn.qualname}#requeue-order",
+            f"frames set aside while waiting are appended to the tail of self.{queue_attr}, which {reader.name} fills concurrently, and this consumer can set aside frames "
+            "that a later read delivers to the user: they are delivered after frames that arrived later (reads out of order)", loc=fn.loc)
